@@ -25,6 +25,26 @@ class AnchorError(AnalysisError):
     """A function / module / data file a property is anchored in no longer
     exists: nothing can be decided (exit code 2)."""
 
+    def __init__(self, msg, internal=False):
+        AnalysisError.__init__(self, msg)
+        self.internal = internal
+
+
+def _known_names():
+    global _KNOWN
+    if _KNOWN is None:
+        path = os.path.join(os.path.dirname(os.path.abspath(__file__)),
+                            "known_names.json")
+        try:
+            with open(path) as f:
+                _KNOWN = json.load(f)
+        except (IOError, OSError):
+            _KNOWN = {}
+    return _KNOWN
+
+
+_KNOWN = None
+
 
 # --------------------------------------------------------------------------
 # Program model
@@ -130,8 +150,120 @@ class Program(object):
         mod, _, qual = spec.partition(":")
         m = self.module(mod)
         if qual not in m.defs:
-            raise AnchorError("anchor vanished: %s" % spec)
-        return m.defs[qual]
+            # a private helper or a function nested in another one is an
+            # implementation detail: its disappearance (inlined, renamed,
+            # merged) leaves the rules that read it without a verdict; a
+            # public function the property is anchored in must exist
+            parts = qual.split(".")
+            last = parts[-1]
+            private = last.startswith("_") and not last.endswith("__")
+            parent = ".".join(parts[:-1])
+            nested = bool(parent) and (
+                isinstance(m.defs.get(parent), ast.FunctionDef) or
+                _known_names().get(mod, {}).get(parent) == "f")
+            raise AnchorError("anchor vanished: %s" % spec,
+                              internal=private or nested)
+        node = m.defs[qual]
+        if isinstance(node, (ast.FunctionDef, ast.AsyncFunctionDef)):
+            self._nest_new_helpers(node, m)
+        return node
+
+    # -- helpers introduced since the reference tree ---------------------------
+    def _nest_new_helpers(self, fn, m, depth=0):
+        """Functions of the same module / methods of the same class that the
+        reference tree did not have and that ``fn`` calls are analysed as if
+        they were nested functions of ``fn`` (a copy of the helper is put at
+        the top of fn's body, a method call self.h(a) is read as h(self, a)):
+        the rules then see through them exactly as they see through nested
+        helpers."""
+        if getattr(fn, "_nested_done", False):
+            return
+        fn._nested_done = True
+        known = _known_names().get(m.name)
+        if known is None:
+            return
+        cls = getattr(fn, "_parent", None)
+        while cls is not None and not isinstance(cls, ast.ClassDef):
+            if isinstance(cls, (ast.FunctionDef, ast.AsyncFunctionDef)):
+                # fn is itself nested: its host is processed instead
+                cls = None
+                break
+            cls = getattr(cls, "_parent", None)
+        if isinstance(getattr(fn, "_parent", None), (ast.FunctionDef,
+                                                     ast.AsyncFunctionDef)):
+            return
+        local_names = set()
+        for n in ast.walk(fn):
+            if isinstance(n, ast.Name) and isinstance(n.ctx, ast.Store):
+                local_names.add(n.id)
+            elif isinstance(n, ast.arg):
+                local_names.add(n.arg)
+        done = {}
+        work = [fn]
+        rounds = 0
+        while work and rounds < 4:
+            rounds += 1
+            nxt = []
+            for host in work:
+                for c in list(ast.walk(host)):
+                    if not isinstance(c, ast.Call):
+                        continue
+                    target = None
+                    method = False
+                    if isinstance(c.func, ast.Name):
+                        q = c.func.id
+                        d = m.defs.get(q)
+                        if isinstance(d, ast.FunctionDef) and \
+                                q not in known and d is not fn and \
+                                isinstance(d._parent, ast.Module):
+                            target = d
+                    elif isinstance(c.func, ast.Attribute) and \
+                            isinstance(c.func.value, ast.Name) and \
+                            c.func.value.id == "self" and cls is not None:
+                        q = "%s.%s" % (cls._qualname, c.func.attr)
+                        d = m.defs.get(q)
+                        if isinstance(d, ast.FunctionDef) and \
+                                q not in known and d is not fn and \
+                                d._parent is cls:
+                            decs = [ast.unparse(x) for x in d.decorator_list]
+                            if all(x == "staticmethod" for x in decs):
+                                target = d
+                                method = "staticmethod" not in decs
+                    if target is None or target.name in local_names:
+                        continue
+                    if any(isinstance(x, (ast.Yield, ast.YieldFrom))
+                           for x in ast.walk(target)) and False:
+                        continue
+                    if id(target) not in done:
+                        import copy
+                        cp = copy.deepcopy(target)
+                        cp.decorator_list = []
+                        cp._virtual = True
+                        cp._origin = target
+                        done[id(target)] = cp
+                        nxt.append(cp)
+                    if isinstance(c.func, ast.Attribute):
+                        recv = c.func.value
+                        c.func = ast.copy_location(
+                            ast.Name(id=target.name, ctx=ast.Load()), c.func)
+                        if method:
+                            c.args.insert(0, recv)
+            work = nxt
+        if not done:
+            return
+        pos = 0
+        if fn.body and isinstance(fn.body[0], ast.Expr) and isinstance(
+                fn.body[0].value, ast.Constant) and isinstance(
+                    fn.body[0].value.value, str):
+            pos = 1
+        fn.body[pos:pos] = list(done.values())
+        for node in ast.walk(fn):
+            for child in ast.iter_child_nodes(node):
+                child._parent = node
+        for cp in done.values():
+            cp._qualname = "%s.%s" % (fn._qualname, cp.name)
+            cp._module = m
+            m.defs.setdefault(cp._qualname, cp)
 
     def functions(self, modname):
         m = self.module(modname)
@@ -295,8 +427,10 @@ class Report(object):
             return fn(*args, **kw)
         try:
             return fn(*args, **kw)
-        except AnchorError:
-            raise
+        except AnchorError as e:
+            if not e.internal:
+                raise
+            self.undecided(rules, str(e))
         except AnalysisError as e:
             self.undecided(rules, str(e))
         except RecursionError:
@@ -326,6 +460,19 @@ def load_known():
         return json.load(f)
 
 
+def _is_reference(prop, program):
+    """Is the source consulted by this check byte-identical to the tree the
+    rules were confirmed on (rigverif/reference_digests.json)?"""
+    path = os.path.join(os.path.dirname(os.path.abspath(__file__)),
+                        "reference_digests.json")
+    try:
+        with open(path) as f:
+            ref = json.load(f)
+    except (IOError, OSError, ValueError):
+        return True
+    return ref.get(prop) in (None, program.digest())
+
+
 def finish(report, program, explanation, not_decided, trusted=None,
            exhaustive=False, extra=None):
     """Check floors, split findings into known / new, write evidence, print the
@@ -343,11 +490,15 @@ def finish(report, program, explanation, not_decided, trusted=None,
                 "rule %s evaluated %d instance(s), floor is %d - the rule no "
                 "longer finds the constructs it was written for" %
                 (rule, got, n))
-    if floor_msgs and not report.findings:
+    if floor_msgs and not report.findings and _is_reference(report.prop,
+                                                            program):
+        # on the tree the rules were confirmed on, a rule that does not find
+        # its constructs means the checker is broken
         raise AnalysisError("; ".join(floor_msgs))
     for m in floor_msgs:
-        report.note("floor not met (violations are reported regardless): " +
-                    m)
+        # on changed code it means the construct was restructured beyond
+        # what the rule reads: no verdict from that rule
+        report.undecided([m.split()[1]], "floor not met: " + m)
 
     known = load_known()
     known_keys = {}
